@@ -44,13 +44,16 @@ def known_of(calls, extra=()):
 FORMS = {
     "add_interaction": ("method", "positional"),
     "add_interactions_from": ("method", "iterator"),
-    "add_path": ("method", "function"),
-    "add_star": ("method", "function"),
-    "add_cycle": ("method", "function"),
+    "add_path": ("method", "function", "method_iter", "function_iter"),
+    "add_star": ("method", "function", "method_iter", "function_iter"),
+    "add_cycle": ("method", "function", "method_iter", "function_iter"),
     "add_node": ("method",),
     "clear": ("method",),
     "clear_edges": ("method",),
+    "touch": ("method",),
 }
+
+TOUCH_KINDS = ["convert", "convert_recip", "slice", "write", "json", "queries", "stats", "paths"]
 
 
 def make_trace(directed, removal, calls, labeling="int", forks=None, fork_at=None, rng=None, known=None, grid=None,
@@ -145,6 +148,9 @@ def rand_history(rng, nnodes, tmax, length, bulk=0.2, monotone=0.5):
             calls.append({"op": "add_node", "n": rng.randint(1, nnodes + 1), "a": rng.randint(0, 2)})
         elif rng.random() < 0.02:
             calls.append({"op": rng.choice(["clear", "clear_edges"])})
+        elif rng.random() < 0.06:
+            # a read-only operation on the live object (its result is thrown away)
+            calls.append({"op": "touch", "kind": rng.choice(TOUCH_KINDS)})
         else:
             calls.append(rand_add(rng, nnodes, hi))
     return calls
